@@ -14,7 +14,10 @@ phase 'run' executes the script while the simulation is running, phase 'init' ex
 inside `init_regular()` of a helper block, i.e. while control blocks may still be
 uninitialised (the only time `IfNotIitialized` can pass).
 """
+import collections
+import collections.abc
 import itertools
+import zlib
 
 import edzed
 
@@ -195,6 +198,12 @@ def build_user(muts, ret):
         if kind == 'val':
             return arg
         if kind == 'map':
+            # "a dict (precisely a MutableMapping)": rotate over mapping types, chosen by the content
+            which = zlib.crc32(repr(sorted(arg.items(), key=lambda kv: kv[0])).encode()) % 3
+            if which == 1:
+                return collections.UserDict(arg)
+            if which == 2:
+                return collections.ChainMap(dict(arg))
             return dict(arg)
         if kind == 'self':
             return data
@@ -270,7 +279,8 @@ def run_impl(scn):
             trace.append('err ' + err_kind(err))
             results.append(('call', 'err', err_kind(err)))
             return
-        if isinstance(ret, dict):
+        if isinstance(ret, collections.abc.MutableMapping):
+            ret = dict(ret)
             if all(isinstance(k, str) for k in ret):
                 trace.append('map ' + enc_data(ret))
             else:
